@@ -1,6 +1,328 @@
 package main
 
-import "bufio"
+import (
+	"bufio"
+	"fmt"
+	"regexp"
+	"strings"
 
-// writeCase writes the model input and the observed orders (filled in below).
-func writeCase(w *bufio.Writer, i int, sp *Spec, b *Built, o outputs) {}
+	a "github.com/squadracorsepolito/acmelib"
+	pb "github.com/squadracorsepolito/acmelib/proto/gen/go/acmelib/v1"
+	"google.golang.org/protobuf/proto"
+)
+
+const (
+	hBus     = 1000000
+	hNode    = 2000000
+	hMsg     = 3000000
+	hSig     = 4000000
+	hAttr    = 5000000
+	hBuilder = 6000000
+)
+
+func clearSp(s string) string { return strings.ReplaceAll(strings.TrimSpace(s), " ", "_") }
+
+type caseDump struct {
+	w     *strings.Builder
+	sp    *Spec
+	b     *Built
+	sigH  map[*SigSpec]int
+	msgH  map[*MsgSpec]int
+	byEid map[string]int // entity id -> handle (all kinds)
+}
+
+func (d *caseDump) attrs(as []AssignSpec) string {
+	var sb strings.Builder
+	fmt.Fprintf(&sb, "%d", len(as))
+	for _, x := range as {
+		at := d.b.Attrs[x.Attr]
+		fmt.Fprintf(&sb, " %d %s %s", hAttr+x.Attr, hx(at.Name()), hx(at.EntityID().String()))
+	}
+	return sb.String()
+}
+
+func (d *caseDump) numberSigs(s *SigSpec) {
+	d.sigH[s] = hSig + len(d.sigH)
+	if sig, ok := d.b.SigOf[s]; ok {
+		d.byEid[sig.EntityID().String()] = d.sigH[s]
+	}
+	for _, c := range s.Children {
+		d.numberSigs(c.Sig)
+	}
+}
+
+func (d *caseDump) sigs(sigs []a.Signal, tIdx map[*a.SignalType]int, uIdx map[*a.SignalUnit]int, eIdx map[*a.SignalEnum]int) {
+	for _, s := range sigs {
+		spec := d.b.SpecOf[s.EntityID()]
+		h := d.sigH[spec]
+		switch s.Kind() {
+		case a.SignalKindStandard:
+			ss, _ := s.ToStandard()
+			u := -1
+			if ss.Unit() != nil {
+				u = uIdx[ss.Unit()]
+			}
+			fmt.Fprintf(d.w, "std %d %s %s %d %d %d %s\n", h, hx(s.Name()), hx(s.Desc()), s.GetRelativeStartPos(), tIdx[ss.Type()], u, d.attrs(spec.Attrs))
+		case a.SignalKindEnum:
+			es, _ := s.ToEnum()
+			fmt.Fprintf(d.w, "enm %d %s %s %d %d %d %s\n", h, hx(s.Name()), hx(s.Desc()), s.GetRelativeStartPos(), s.GetSize(), eIdx[es.Enum()], d.attrs(spec.Attrs))
+		case a.SignalKindMultiplexer:
+			mx, _ := s.ToMultiplexer()
+			var fixed []string
+			for _, c := range spec.Children {
+				if len(c.Groups) == 0 {
+					fixed = append(fixed, fmt.Sprint(d.sigH[c.Sig]))
+				}
+			}
+			fmt.Fprintf(d.w, "mux %d %s %s %d %d %d %d %s %s\n", h, hx(s.Name()), hx(s.Desc()), s.GetRelativeStartPos(), mx.GroupCount(), mx.GroupSize(),
+				len(fixed), strings.Join(append(fixed, ""), " "), d.attrs(spec.Attrs))
+			for _, g := range mx.GetSignalGroups() {
+				fmt.Fprintf(d.w, "grp\n")
+				d.sigs(g, tIdx, uIdx, eIdx)
+				fmt.Fprintf(d.w, "endgrp\n")
+			}
+			fmt.Fprintf(d.w, "endmux\n")
+		}
+	}
+}
+
+// writeCase writes the raw model input (map-like fields in SPECIFICATION order, i.e. arbitrary
+// with respect to every sort key) and the observed Markdown blocks / save order / DBC order.
+func writeCase(w *bufio.Writer, idx int, sp *Spec, b *Built, o outputs) {
+	d := &caseDump{w: &strings.Builder{}, sp: sp, b: b, sigH: map[*SigSpec]int{}, msgH: map[*MsgSpec]int{}, byEid: map[string]int{}}
+	g := func(f float64) string { return hx(fmt.Sprintf("%g", f)) }
+	tIdx, uIdx, eIdx := map[*a.SignalType]int{}, map[*a.SignalUnit]int{}, map[*a.SignalEnum]int{}
+	fmt.Fprintf(d.w, "case %d\n", idx)
+	for i, t := range b.Types {
+		tIdx[t] = i
+		d.byEid[t.EntityID().String()] = i
+		sg := 0
+		if t.Signed() {
+			sg = 1
+		}
+		fmt.Fprintf(d.w, "typ %d %s %s %d %s %d %s %s %s %s\n", i, hx(t.Name()), hx(t.Desc()), t.Size(), hx(t.Kind().String()), sg,
+			g(t.Min()), g(t.Max()), g(t.Scale()), g(t.Offset()))
+	}
+	for i, u := range b.Units {
+		uIdx[u] = i
+		d.byEid[u.EntityID().String()] = i
+		fmt.Fprintf(d.w, "unt %d %s %s %s %s\n", i, hx(u.Name()), hx(u.Desc()), hx(u.Kind().String()), hx(u.Symbol()))
+	}
+	for i, e := range b.Enums {
+		eIdx[e] = i
+		d.byEid[e.EntityID().String()] = i
+		byIndex := map[int]*a.SignalEnumValue{}
+		for _, v := range e.Values() {
+			byIndex[v.Index()] = v
+		}
+		fmt.Fprintf(d.w, "enu %d %s %s %d %d", i, hx(e.Name()), hx(e.Desc()), e.MaxIndex(), len(sp.Enums[i].Vals))
+		for _, vs := range sp.Enums[i].Vals { // specification order
+			v := byIndex[vs.Index]
+			fmt.Fprintf(d.w, " %s %d %s", hx(v.Name()), v.Index(), hx(v.Desc()))
+		}
+		fmt.Fprintf(d.w, "\n")
+	}
+	for i, at := range b.Attrs {
+		d.byEid[at.EntityID().String()] = hAttr + i
+	}
+	for i, cb := range b.Builders {
+		d.byEid[cb.EntityID().String()] = hBuilder + i
+	}
+	for i, n := range b.Nodes {
+		d.byEid[n.EntityID().String()] = hNode + i
+	}
+	for bi, bs := range sp.Buses {
+		d.byEid[b.Buses[bi].EntityID().String()] = hBus + bi
+		for _, f := range bs.Ifs {
+			for _, ms := range f.Msgs {
+				d.msgH[ms] = hMsg + len(d.msgH)
+				d.byEid[b.MsgOf[ms].EntityID().String()] = d.msgH[ms]
+				for _, s := range ms.Sigs {
+					d.numberSigs(s)
+				}
+			}
+		}
+	}
+	fmt.Fprintf(d.w, "net %s %s\n", hx(b.Net.Name()), hx(b.Net.Desc()))
+	for bi, bs := range sp.Buses {
+		bus := b.Buses[bi]
+		bh, bn := -1, ""
+		if bs.Builder >= 0 {
+			bh, bn = hBuilder+bs.Builder, b.Builders[bs.Builder].Name()
+		}
+		fmt.Fprintf(d.w, "bus %d %s %s %d %d %s %s\n", hBus+bi, hx(bus.Name()), hx(bus.Desc()), bus.Baudrate(), bh, hx(bn), d.attrs(bs.Attrs))
+		for _, f := range bs.Ifs {
+			n := b.Nodes[f.Ref.Node]
+			fmt.Fprintf(d.w, "nif %d %s %s %d %s\n", hNode+f.Ref.Node, hx(n.Name()), hx(n.Desc()), uint32(n.ID()), d.attrs(sp.Nodes[f.Ref.Node].Attrs))
+			for _, ms := range f.Msgs {
+				m := b.MsgOf[ms]
+				st := 0
+				if m.HasStaticCANID() {
+					st = 1
+				}
+				fmt.Fprintf(d.w, "msg %d %s %s %s %d %d %d %d %s %d %s %d", d.msgH[ms], hx(m.EntityID().String()), hx(m.Name()), hx(m.Desc()), st,
+					uint32(m.GetCANID()), uint32(m.ID()), m.SizeByte(), hx(m.ByteOrder().String()), m.CycleTime(), d.attrs(ms.Attrs), len(ms.Recv))
+				for _, rf := range ms.Recv {
+					rn := b.Nodes[rf.Node]
+					fmt.Fprintf(d.w, " %d %s %s %d %d %s", hNode+rf.Node, hx(rn.Name()), hx(rn.EntityID().String()), rf.Num, uint32(rn.ID()), d.attrs(sp.Nodes[rf.Node].Attrs))
+				}
+				fmt.Fprintf(d.w, "\n")
+				d.sigs(m.Signals(), tIdx, uIdx, eIdx)
+				fmt.Fprintf(d.w, "endmsg\n")
+			}
+			fmt.Fprintf(d.w, "endnif\n")
+		}
+		fmt.Fprintf(d.w, "endbus\n")
+	}
+	fmt.Fprintf(d.w, "endcase\n")
+	// observed: Markdown
+	e := 0
+	if strings.HasPrefix(o.err, "markdown:") {
+		e = 1
+	}
+	fmt.Fprintf(d.w, "obs %d\n%sendobs\n", e, dumpBlocks(parseMarkdown(o.md)))
+	// observed: save order
+	fmt.Fprintf(d.w, "obssave %s\n", strings.Join(d.saveEvents(o.wire), " "))
+	// observed: DBC order, one line per bus in Buses() order
+	attrNames := map[string]bool{}
+	for _, at := range b.Attrs {
+		attrNames[clearSp(at.Name())] = true
+	}
+	for _, text := range o.dbc {
+		fmt.Fprintf(d.w, "obsdbc %s\n", strings.Join(dbcEvents(text, attrNames), " "))
+	}
+	fmt.Fprintf(d.w, "endobsall\n")
+	w.WriteString(d.w.String())
+}
+
+func (d *caseDump) saveEvents(wire []byte) []string {
+	var n pb.Network
+	if err := proto.Unmarshal(wire, &n); err != nil {
+		return []string{"undecodable"}
+	}
+	var ev []string
+	h := func(id string) int {
+		if v, ok := d.byEid[id]; ok {
+			return v
+		}
+		return -1
+	}
+	ass := func(l []*pb.AttributeAssignment) {
+		for _, x := range l {
+			ev = append(ev, fmt.Sprintf("A%d", h(x.AttributeEntityId)))
+		}
+	}
+	var sig func(s *pb.Signal)
+	sig = func(s *pb.Signal) {
+		ev = append(ev, fmt.Sprintf("S%d", h(s.Entity.GetEntityId())))
+		ass(s.AttributeAssignments)
+		if v, ok := s.Signal.(*pb.Signal_Multiplexer); ok {
+			for _, c := range v.Multiplexer.Signals {
+				sig(c)
+			}
+		}
+	}
+	for _, b := range n.Buses {
+		ev = append(ev, fmt.Sprintf("B%d", h(b.Entity.GetEntityId())))
+		ass(b.AttributeAssignments)
+		for _, ni := range b.NodeInterfaces {
+			ev = append(ev, fmt.Sprintf("N%d", h(ni.NodeEntityId)))
+			for _, m := range ni.Messages {
+				ev = append(ev, fmt.Sprintf("M%d", h(m.Entity.GetEntityId())))
+				ass(m.AttributeAssignments)
+				for _, s := range m.Signals {
+					sig(s)
+				}
+				for _, r := range m.Receivers {
+					ev = append(ev, fmt.Sprintf("R%d:%d", h(r.NodeEntityId), r.NodeInterfaceNumber))
+				}
+			}
+		}
+	}
+	for _, x := range n.CanidBuilders {
+		ev = append(ev, fmt.Sprintf("F0:%d", h(x.Entity.GetEntityId())))
+	}
+	for _, x := range n.Nodes {
+		ev = append(ev, fmt.Sprintf("F1:%d", h(x.Entity.GetEntityId())))
+		ass(x.AttributeAssignments)
+	}
+	for _, x := range n.SignalTypes {
+		ev = append(ev, fmt.Sprintf("F2:%d", h(x.Entity.GetEntityId())))
+	}
+	for _, x := range n.SignalUnits {
+		ev = append(ev, fmt.Sprintf("F3:%d", h(x.Entity.GetEntityId())))
+	}
+	for _, x := range n.SignalEnums {
+		ev = append(ev, fmt.Sprintf("F4:%d", h(x.Entity.GetEntityId())))
+		for _, v := range x.Values {
+			ev = append(ev, fmt.Sprintf("V%d", v.Index))
+		}
+	}
+	for _, x := range n.Attributes {
+		ev = append(ev, fmt.Sprintf("F5:%d", h(x.Entity.GetEntityId())))
+	}
+	return ev
+}
+
+var (
+	reValTable = regexp.MustCompile(`^VAL_TABLE_ (.*?)((?: \d+ "[^"]*")*)\s*;$`)
+	reValPair  = regexp.MustCompile(` (\d+) "([^"]*)"`)
+	reBO       = regexp.MustCompile(`^BO_ (\d+) (\S+)\s*: (\d+) (.*)$`)
+	reSG       = regexp.MustCompile(`^\s*SG_ (\S+)`)
+	reBA       = regexp.MustCompile(`^BA_ "([^"]*)" (.*);$`)
+)
+
+// dbcEvents projects a DBC text onto its order skeleton: nodes (BU_), value tables, messages with
+// their signals, attribute value lines of user attributes (owner key, attribute name).
+func dbcEvents(text string, attrNames map[string]bool) []string {
+	var nodes, labs, msgs, asg []string
+	for _, ln := range strings.Split(text, "\n") {
+		ln = strings.TrimRight(ln, "\r")
+		switch {
+		case strings.HasPrefix(ln, "BU_:"):
+			for _, n := range strings.Fields(strings.TrimPrefix(ln, "BU_:")) {
+				nodes = append(nodes, "N"+hx(n))
+			}
+		case strings.HasPrefix(ln, "VAL_TABLE_ "):
+			if m := reValTable.FindStringSubmatch(ln); m != nil {
+				lab := clearSp(m[1])
+				for _, p := range reValPair.FindAllStringSubmatch(m[2], -1) {
+					lab += "/" + p[1] + ":" + strings.ReplaceAll(p[2], " ", "_")
+				}
+				labs = append(labs, "L"+hx(lab))
+			} else {
+				labs = append(labs, "L"+hx("unparsed:"+ln))
+			}
+		case strings.HasPrefix(ln, "BO_ "):
+			if m := reBO.FindStringSubmatch(ln); m != nil {
+				msgs = append(msgs, "M"+m[1]+"."+hx(m[2]))
+			}
+		case reSG.MatchString(ln) && !strings.HasPrefix(ln, "SG_MUL_VAL_"):
+			msgs = append(msgs, "S"+hx(reSG.FindStringSubmatch(ln)[1]))
+		case strings.HasPrefix(ln, "BA_ "):
+			m := reBA.FindStringSubmatch(ln)
+			if m == nil || !attrNames[m[1]] {
+				continue
+			}
+			f := strings.Fields(m[2])
+			owner := "B"
+			switch {
+			case len(f) >= 2 && f[0] == "BU_":
+				owner = "N" + hx(f[1])
+			case len(f) >= 2 && f[0] == "BO_":
+				owner = "M" + f[1]
+			case len(f) >= 3 && f[0] == "SG_":
+				owner = "S" + f[1] + "." + hx(f[2])
+			}
+			asg = append(asg, "a"+owner+":"+hx(m[1]))
+		}
+	}
+	res := append([]string{}, nodes...)
+	res = append(res, "|")
+	res = append(res, labs...)
+	res = append(res, "|")
+	res = append(res, msgs...)
+	res = append(res, "|")
+	res = append(res, asg...)
+	return res
+}
